@@ -73,6 +73,11 @@ Definition supported (v : bytes) : bool :=
 (** ---------- sender ---------- *)
 Definition pad_len (bs plen : N) : N :=
   let lp := bs - (5 + plen) mod bs in if lp <? 4 then lp + bs else lp.
+(** SSHCiphers keeps the two directions apart: block size of the OUTGOING cipher (encBlockSize) and of the INCOMING
+    one (decBlockSize); RFC 4253 section 7.1 negotiates them separately.  sendPacket pads to the outgoing one. *)
+Record ciphers := mkcip { encBlock : N; decBlock : N }.
+Definition send_pad (c : ciphers) (plen : N) : N := pad_len (encBlock c) plen.
+
 (** packet = uint32 packet_length, byte padding_length, payload, padding *)
 Definition frame (payload padding : bytes) : bytes :=
   enc32 (1 + len payload + len padding) ++ [len padding] ++ payload ++ padding.
